@@ -14,7 +14,7 @@ CACHE = os.path.join(VERIF, ".cache")
 DRIVER = os.path.join(VERIF, "driver", "target", "release", "factgen")
 SCRATCH = os.environ.get("PAROL_VERIF_SCRATCH", "/var/tmp/parol-verif-scratch")
 EXPECTED = ["parol_runtime.lib", "parol.lib", "parol.bin", "parol_ls.bin"]
-KEEP = 8
+KEEP = 14
 
 
 def _iter_files(repo):
@@ -68,9 +68,18 @@ def build_driver(log=sys.stderr):
         raise RuntimeError("cannot build factgen driver")
 
 
+REQUIRED = ["parol_runtime.lib", "parol.lib", "parol.bin"]
+
+
 def _complete(d):
-    return all(os.path.isfile(os.path.join(d, e + ".jsonl")) for e in EXPECTED) and \
+    """COMPLETE lists the fact files of the run; parol_ls.bin may be absent when parol-ls's build script
+    (which *runs* the freshly built generator on parol_ls.par) failed on this tree"""
+    return all(os.path.isfile(os.path.join(d, e + ".jsonl")) for e in REQUIRED) and \
         os.path.isfile(os.path.join(d, "COMPLETE"))
+
+
+def missing_crates(d):
+    return [e for e in EXPECTED if not os.path.isfile(os.path.join(d, e + ".jsonl"))]
 
 
 def _prune(factsroot, keep_name):
@@ -134,19 +143,31 @@ def ensure(repo=REPO, log=sys.stderr):
                 "CARGO_INCREMENTAL": "0",
             })
             env.pop("RUSTC_WRAPPER", None)
-            r = subprocess.run(["cargo", "+nightly", "check", "--offline", "--workspace"],
+            r = subprocess.run(["cargo", "+nightly", "check", "--offline", "-p", "parol_runtime", "-p", "parol"],
                                cwd=SCRATCH, env=env, stdout=subprocess.PIPE, stderr=subprocess.STDOUT, text=True)
             if r.returncode != 0:
                 tail = "\n".join(r.stdout.splitlines()[-60:])
                 print(tail, file=log)
                 shutil.rmtree(tmpout, ignore_errors=True)
                 raise RuntimeError("cargo check failed on the current tree (does it compile?)")
-            missing = [e for e in EXPECTED if not os.path.isfile(os.path.join(tmpout, e + ".jsonl"))]
+            missing = [e for e in REQUIRED if not os.path.isfile(os.path.join(tmpout, e + ".jsonl"))]
             if missing:
                 shutil.rmtree(tmpout, ignore_errors=True)
                 raise RuntimeError("factgen wrote no facts for %s (driver skipped?)" % missing)
+            # parol-ls: its build script runs the generator built from this tree; a failure there must not hide
+            # the facts of the other crates (checks that need parol_ls then fail with an error)
+            r2 = subprocess.run(["cargo", "+nightly", "check", "--offline", "-p", "parol-ls"],
+                                cwd=SCRATCH, env=env, stdout=subprocess.PIPE, stderr=subprocess.STDOUT, text=True)
+            note = ""
+            if r2.returncode != 0 or not os.path.isfile(os.path.join(tmpout, "parol_ls.bin.jsonl")):
+                note = "parol-ls failed to build:\n" + "\n".join(r2.stdout.splitlines()[-25:])
+                print("[factcache] " + note, file=log)
+                try:
+                    os.remove(os.path.join(tmpout, "parol_ls.bin.jsonl"))
+                except OSError:
+                    pass
             with open(os.path.join(tmpout, "COMPLETE"), "w") as fh:
-                fh.write(th + "\n")
+                fh.write(th + "\n" + note)
             shutil.rmtree(fdir, ignore_errors=True)
             os.rename(tmpout, fdir)
         finally:
